@@ -3,6 +3,7 @@ package main
 import (
 	"bytes"
 	"fmt"
+	"github.com/yuin/goldmark/ast"
 
 	"github.com/yuin/goldmark/text"
 )
@@ -26,7 +27,11 @@ func runC06(c *Ctx) {
 	}
 	corp := corpusDocs()
 	pick := func() []byte {
-		switch c.R.Intn(4) {
+		switch c.R.Intn(6) {
+		case 4:
+			return []byte(matrixBlock(c.R))
+		case 5:
+			return matrixPair(c.R)
 		case 0:
 			return []byte(c.R.PickS(c06Stateful))
 		case 1:
@@ -41,6 +46,9 @@ func runC06(c *Ctx) {
 		for h := 0; h < nHist; h++ {
 			used := cf.Build()
 			var history []string
+			// a tree parsed earlier stays valid: it is rendered again after later calls
+			var keptTree ast.Node
+			var keptSrc, keptOut []byte
 			for k := 0; k < 1+c.R.Intn(histLen); k++ {
 				d := pick()
 				history = append(history, q(d))
@@ -65,6 +73,12 @@ func runC06(c *Ctx) {
 						got = b.Bytes()
 					default:
 						tree := used.Parser().Parse(text.NewReader(d))
+						if keptTree != nil {
+							var b bytes.Buffer
+							if used.Renderer().Render(&b, keptSrc, keptTree) == nil && !bytes.Equal(b.Bytes(), keptOut) {
+								c.Violate("stale-tree-rerender-differs", in, fmt.Sprintf("a tree of %.120q parsed earlier renders %.200q after later calls on the instance; it rendered %.200q at first", keptSrc, b.Bytes(), keptOut), "stale-tree-rerender-differs")
+							}
+						}
 						before, _ := dumpTree(tree, d)
 						var outs [][]byte
 						for r := 0; r < 1+c.R.Intn(4); r++ {
@@ -75,6 +89,7 @@ func runC06(c *Ctx) {
 							outs = append(outs, b.Bytes())
 						}
 						got = outs[0]
+						keptTree, keptSrc, keptOut = tree, d, outs[0]
 						for r := 1; r < len(outs); r++ {
 							if !bytes.Equal(outs[r], outs[0]) {
 								c.Violate("rerender-differs", in, fmt.Sprintf("rendering %d of the same tree gives %.200q, the first gave %.200q", r+1, outs[r], outs[0]), "rerender-differs")
